@@ -449,7 +449,22 @@ where
         let trailer_dict = trailer.to_dict(self)?;
         
         let xref_promise = self.promise::<Stream<XRefInfo>>();
+        let xref_id = xref_promise.get_inner().id;
+        let len_before = self.backend.len();
+        if let Err(e) = self.write_revision(trailer, trailer_dict, xref_promise) {
+            // a failed save must not leave its half-written revision or the placeholder for its
+            // cross-reference stream behind: the next save would be rejected because of it
+            self.backend.truncate(len_before);
+            self.changes.remove(&xref_id);
+            if self.refs.len() as u64 == xref_id + 1 {
+                self.refs.pop();
+            }
+            return Err(e);
+        }
+        Ok(&self.backend)
+    }
 
+    fn write_revision(&mut self, trailer: &mut Trailer, trailer_dict: Dictionary, xref_promise: PromisedRef<Stream<XRefInfo>>) -> Result<()> {
         let mut changes: Vec<_> = self.changes.iter().collect();
         changes.sort_unstable_by_key(|&(id, _)| id);
 
@@ -485,7 +500,7 @@ where
         self.cache.clear();
         *trailer = Trailer::from_dict(trailer_dict, &self.resolver())?;
 
-        Ok(&self.backend)
+        Ok(())
     }
 }
 
